@@ -11,8 +11,8 @@ CLAIMS = {
         'replies (matching / other times and ids, duplicates, acks and responses) and the application reading. Binding: TLC-simulated sequences of '
         'whole operations are executed on a real quiet Serf node (Query() with RequestAck, replies in wire format through NotifyMsg) built from the '
         'yield-instrumented working tree with virtual time; the same sequences split into threads plus hand-written race programs (late reply vs '
-        'timeout vs second Query(), two Query() calls sharing a Lamport time) run under every schedule with <=2 preemptions (budgeted) and seeded '
-        'random schedules of a cooperative scheduler; a subset runs on the unchanged files with the real clock and real timers; TLC validates '
+        'timeout vs second Query(), two Query() calls sharing a Lamport time) run under schedules enumerated by thread-priority orders x change '
+        'points (PCT scheme) and seeded random schedules of a cooperative scheduler; a subset runs on the unchanged files with the real clock and real timers; TLC validates '
         'every trace line against the spec (subset construction over unlogged locals) and evaluates the monitors on the observed channels.',
         'Trusts TLC, the yield instrumenter (yields before every statement, cooperative Lock/RLock) and the textual rerouting of time.Now (query.go) '
         'and time.AfterFunc (registerQueryResponse) to harness hooks in the instrumented copies, the overlay accessors reading queryResponse and '
@@ -199,7 +199,7 @@ def c07_drive(ctx, binary, progs, tag, extra=()):
     tp = os.path.join(ctx.scratch, "c07-%s-trace.ndjson" % tag)
     with open(ip, "w") as f:
         for i, p in enumerate(progs):
-            f.write(json.dumps({"id": i, "pre": p["pre"], "threads": p["threads"]}, separators=(",", ":")) + "\n")
+            f.write(json.dumps({"id": i, "pre": p["pre"], "threads": p["threads"], "budget": p.get("budget", 0)}, separators=(",", ":")) + "\n")
     rc, out = vlib.run_driver(ctx, binary, ["-mode", "c07", "-in", ip, "-out", tp, "-scratch", ctx.scratch] + list(extra), timeout=3000)
     if rc != 0:
         raise vlib.Inconclusive("queryflow driver (c07 %s) failed rc=%d:\n%s" % (tag, rc, out[-3000:]))
@@ -257,19 +257,22 @@ def run_c07(ctx, replay=None):
                                             num, depth, timeout=3000)
         seq_progs = [{"pre": [st["o"] for st in s], "threads": []} for s in scheds]
         conc_progs = c07_must_programs()
-        want = 60 if thorough else 14
+        for p in conc_progs:
+            p["budget"] = 500 if thorough else 150
+        want = 40 if thorough else 14
         for s in scheds:
             if len(conc_progs) >= want + 6:
                 break
             p = c07_split(s, rng)
             if p:
+                p["budget"] = 120 if thorough else 40
                 conc_progs.append(p)
         rt_progs = [p for p in (c07_realtime(s) for s in scheds) if p][:(150 if thorough else 25)]
     runs = []   # (tag, binary, programs, extra args)
     if seq_progs:
         runs.append(("seq", vt, seq_progs, []))
     if conc_progs:
-        runs.append(("conc", vt, conc_progs, ["-maxpre", "2", "-budget", "400" if thorough else "60", "-random", "60" if thorough else "12"]))
+        runs.append(("conc", vt, conc_progs, ["-budget", "150", "-random", "30" if thorough else "10"]))
     if rt_progs:
         runs.append(("rt", build_c07(ctx, realtime=True), rt_progs, ["-realtime"]))
     # every run writes its own trace (ids offset by run); one TLC validation over the concatenation
@@ -322,8 +325,8 @@ def run_c07(ctx, replay=None):
         "driver": summaries, "ops_by_kind": kinds, "traces_by_situation": info,
         "rule": "TLC -simulate sequences of whole operations (Query() calls with RequestAck, reply deliveries through NotifyMsg in wire "
                 "format with matching / other times and ids, duplicates, deadline, timer body, application reads) executed on a real quiet "
-                "node in the virtual-time build; the same sequences split into threads (plus hand-written race programs) run under every "
-                "schedule with <=2 preemptions (budgeted) plus seeded random schedules on the yield-instrumented code; a subset replayed "
+                "node in the virtual-time build; the same sequences split into threads (plus hand-written race programs) run under "
+                "schedules enumerated by thread priority orders x change points plus seeded random schedules on the yield-instrumented code; a subset replayed "
                 "with the real clock and real timers; every line validated by TLC (subset construction) and judged by the C07 monitors",
         "samples": [seq_progs[0]["pre"][:8]] if seq_progs else [],
     }
